@@ -217,6 +217,83 @@ impl Scenario {
     }
 }
 
+/// The user that `u` becomes under the fixed renaming used by the creator-variation family and by the
+/// renaming oracle: every user is swapped with the other user of the same server (so that every
+/// server-name dependent check sees the same servers as before).
+pub fn renamed_user(u: &str) -> Option<&'static str> {
+    Some(match u {
+        "@alice:s0" => "@dave:s0",
+        "@dave:s0" => "@alice:s0",
+        "@bob:s1" => "@eve:s1",
+        "@eve:s1" => "@bob:s1",
+        "@carol:s2" => "@zed:s2",
+        "@zed:s2" => "@carol:s2",
+        _ => return None,
+    })
+}
+
+fn rename_str(s: &str) -> String {
+    renamed_user(s).map(str::to_owned).unwrap_or_else(|| s.to_owned())
+}
+
+fn rename_value(v: &Value) -> Value {
+    match v {
+        Value::String(s) => Value::String(rename_str(s)),
+        Value::Array(a) => Value::Array(a.iter().map(rename_value).collect()),
+        Value::Object(o) => Value::Object(o.iter().map(|(k, v)| (rename_str(k), rename_value(v))).collect()),
+        other => other.clone(),
+    }
+}
+
+impl Scenario {
+    /// The same room history with every user consistently renamed (senders, state keys, and every
+    /// string / object key of the contents that is one of the generator's user IDs). Event IDs,
+    /// timestamps, types and the DAG are untouched, so — no part of state resolution or of the
+    /// authorization rules looks at the spelling of a user ID beyond equality and its server name —
+    /// the resolved state of the renamed room is the renamed resolved state.
+    pub fn rename_users(&self) -> Scenario {
+        let events = self
+            .events
+            .iter()
+            .map(|e| {
+                let content_val = rename_value(&e.content_val);
+                Arc::new(Ev {
+                    id: e.id.clone(),
+                    room: e.room.clone(),
+                    sender: uid(&rename_str(e.sender.as_str())),
+                    ty: e.ty.clone(),
+                    state_key: e.state_key.as_deref().map(rename_str),
+                    content: RawValue::from_string(content_val.to_string()).unwrap(),
+                    content_val,
+                    prev: e.prev.clone(),
+                    auth: e.auth.clone(),
+                    ts: e.ts,
+                })
+            })
+            .collect();
+        let sets = self
+            .sets
+            .iter()
+            .map(|s| s.iter().map(|(t, k, i)| (t.clone(), rename_str(k), i.clone())).collect())
+            .collect();
+        Scenario { ver: self.ver, events, sets, chains: self.chains.clone(), rejected: self.rejected.clone() }
+    }
+
+    /// Creator variation: half of the generated rooms are handed out renamed, so that the rooms one
+    /// process resolves one after the other have different creators and members.
+    pub fn vary_users(self, rng: &mut Rng) -> Scenario {
+        if rng.chance(1, 2) { self.rename_users() } else { self }
+    }
+}
+
+/// `show_state` of the state map with its state keys renamed (the answer expected of the renamed room).
+pub fn show_state_renamed(r: &Result<SMap, ruma_state_res::Error>) -> String {
+    match r {
+        Err(_) => "err".into(),
+        Ok(m) => show_state(&Ok(m.iter().map(|((t, k), i)| ((t.clone(), rename_str(k)), i.clone())).collect())),
+    }
+}
+
 /// Canonical answer of a `resolve` call: entries sorted by (type, state key).
 pub fn show_state(r: &Result<SMap, ruma_state_res::Error>) -> String {
     match r {
@@ -908,7 +985,7 @@ pub fn gen_room(rng: &mut Rng, big: bool) -> (Scenario, BTreeMap<&'static str, u
     rng.shuffle(&mut events);
     *room.stats.entry("events").or_default() += events.len();
     let rejected = room.rejected.clone();
-    (Scenario { ver, events, sets, chains, rejected }, room.stats)
+    (Scenario { ver, events, sets, chains, rejected }.vary_users(rng), room.stats)
 }
 
 /// A history shaped so that the auth difference contains an old power event whose key is
@@ -982,7 +1059,7 @@ pub fn gen_overlay(rng: &mut Rng) -> Scenario {
     let mut events = room.events.clone();
     rng.shuffle(&mut events);
     let rejected = room.rejected.clone();
-    Scenario { ver, events, sets, chains, rejected }
+    Scenario { ver, events, sets, chains, rejected }.vary_users(rng)
 }
 
 /// A history in which one sender has two power events in the power graph, sent under different
@@ -1063,7 +1140,7 @@ pub fn gen_promotion(rng: &mut Rng) -> Scenario {
         let mut events = room.events.clone();
         rng.shuffle(&mut events);
         let rejected = room.rejected.clone();
-        return Scenario { ver, events, sets, chains, rejected };
+        return Scenario { ver, events, sets, chains, rejected }.vary_users(rng);
     }
     gen_overlay(rng)
 }
@@ -1230,9 +1307,60 @@ pub fn gen_sloppy_auth(rng: &mut Rng) -> Scenario {
         let mut events = room.events.clone();
         rng.shuffle(&mut events);
         let rejected = room.rejected.clone();
-        return Scenario { ver, events, sets, chains, rejected };
+        return Scenario { ver, events, sets, chains, rejected }.vary_users(rng);
     }
     gen_overlay(rng)
+}
+
+/// A power event of the room's creator sent BEFORE the first power-levels event (its `auth_events`
+/// hold no power-levels event, so its sender's level is the creator default) in conflict with a power
+/// event of a moderator (level `mid`, 0 < mid < 100) that cites the power levels. The two join-rules
+/// events are unrelated in the auth DAG; only the creator's default level (100 as creator, otherwise
+/// the users default 0) decides which one the reverse topological power sort puts last. `who` picks the
+/// creator and the moderator (so that rooms resolved one after the other have different creators),
+/// `ts_flip` whether the creator's event is the later one.
+pub fn early_creator(ver: u32, who: usize, mid: i64, ts_flip: bool) -> Scenario {
+    let cr = USERS[who % USERS.len()];
+    let md = USERS[(who + 1 + who / USERS.len() % 4) % USERS.len()];
+    let create_c = if ver >= 11 { json!({}) } else { json!({"creator": cr}) };
+    let (t_jr0, t_jr1) = if ts_flip { (60, 40) } else { (4, 40) };
+    let c = mk_ev("$c", cr, "m.room.create", Some(""), create_c, vec![], vec![], 1);
+    let mc = mk_ev("$mc", cr, "m.room.member", Some(cr), member("join"), vec![c.id.clone()], vec![c.id.clone()], 2);
+    let jr0 = mk_ev("$jr0", cr, "m.room.join_rules", Some(""), json!({"join_rule": "public"}), vec![mc.id.clone()], vec![c.id.clone(), mc.id.clone()], t_jr0);
+    let mm = mk_ev("$mm", md, "m.room.member", Some(md), member("join"), vec![jr0.id.clone()], vec![c.id.clone(), jr0.id.clone()], 5);
+    let pl = mk_ev("$pl", cr, "m.room.power_levels", Some(""), json!({"users": {cr: 100, md: mid}}), vec![mm.id.clone()], vec![c.id.clone(), mc.id.clone()], 6);
+    let jr1 = mk_ev("$jr1", md, "m.room.join_rules", Some(""), json!({"join_rule": "invite"}), vec![pl.id.clone()], vec![c.id.clone(), mm.id.clone(), pl.id.clone()], t_jr1);
+    let events = vec![c.clone(), mc.clone(), jr0.clone(), mm.clone(), pl.clone(), jr1.clone()];
+    let store: Store = events.iter().map(|e| (e.id.clone(), e.clone())).collect();
+    let base = vec![
+        ("m.room.create".to_owned(), String::new(), c.id.clone()),
+        ("m.room.member".to_owned(), cr.to_owned(), mc.id.clone()),
+        ("m.room.member".to_owned(), md.to_owned(), mm.id.clone()),
+        ("m.room.power_levels".to_owned(), String::new(), pl.id.clone()),
+    ];
+    let mut s1 = base.clone();
+    s1.push(("m.room.join_rules".into(), String::new(), jr0.id.clone()));
+    let mut s2 = base;
+    s2.push(("m.room.join_rules".into(), String::new(), jr1.id.clone()));
+    let chains = [&s1, &s2]
+        .iter()
+        .map(|s| auth_chain(&store, s.iter().map(|x| x.2.clone())).into_iter().collect())
+        .collect();
+    Scenario { ver, events, sets: vec![s1, s2], chains, rejected: vec![] }
+}
+
+/// The deterministic `early_creator` cells of one run: every rules family x several creators x
+/// moderator levels x timestamp orders.
+pub fn early_creator_cells() -> Vec<Scenario> {
+    let mut v = Vec::new();
+    for ver in [6u32, 10, 11] {
+        for who in [0usize, 3, 1, 8, 5] {
+            for (mid, flip) in [(50i64, false), (50, true), (99, false), (1, true)] {
+                v.push(early_creator(ver, who, mid, flip));
+            }
+        }
+    }
+    v
 }
 
 /// The F4 witness of DESIGN §7: two conflicting topics, one sent before the only power-levels
